@@ -220,6 +220,9 @@ def main(argv=None):
         print("not reproduced on this tree")
         return 0
 
+    pre = reg.get("pre")
+    if pre:
+        pre(params)
     # optional extra configurations (e.g. protobuf backends for C02)
     configs = reg.get("configs") or [{"name": "default", "env": {}}]
     all_results = []
@@ -239,7 +242,11 @@ def main(argv=None):
     post = reg.get("post")
     if post:
         # parent-side step that needs no gtirb import (e.g. Java x-check)
-        post(m, build_dir, tier, seed)
+        post(m, {"build_dir": build_dir, "tier": tier, "seed": seed,
+                 "params": params, "merge": merge,
+                 "spawn": lambda p2: spawn_workers(
+                     prop, tier, seed, build_dir, nworkers, p2, budgets,
+                     tag=" (stage 2)")})
     meta = m["meta"]
     known = load_known()
 
@@ -313,6 +320,9 @@ def main(argv=None):
                 else "not reached by this run's workload"
             print("KNOWN-FINDING: property=%s %s [%s; %s]"
                   % (prop, k["what"], k["id"], seen))
+    import glob
+    for old in glob.glob(os.path.join(VERIF, "replays", prop + "-*.json")):
+        os.remove(old)
     for v in new:
         path = write_replay(prop, v)
         print("VIOLATION property=%s replay=%s" % (prop, path))
